@@ -54,8 +54,11 @@ def body(c):
             for k in (1, 2, 3):
                 cases.append({"id": 0, "flavour": flavour, "doc": empty_doc, "rawText": t, "opIndex": 1, "vars": [],
                               "world": gqlgen.WorldGen(ts, random.Random(j)).world(), "exts": k, "preparsed": (j + k) % 3 == 0})
+    # fields of derive(SimpleObject) types have generated resolvers that log no start/finish event (static flavour)
+    unlogged = sorted(f for t in ts["types"].values() if t.get("simple") for f in t["fields"])
     for i, x in enumerate(cases):
         x["id"] = i + 1
+        x["unlogged"] = unlogged if x["flavour"] == "static" else []
     vlib.write_ndjson(c.path("cases.ndjson"), cases)
     (binary,) = vlib.build_harness(["c30"])
     p = vlib.run_harness(binary, [c.path("cases.ndjson"), c.path("trace.ndjson"), execcheck.SCHEMA], timeout=3000)
